@@ -5,6 +5,7 @@ import (
 	"verif/vlib"
 
 	_ "verif/checks/autosafe"
+	_ "verif/checks/crashfree"
 	_ "verif/checks/extexit"
 	_ "verif/checks/redirect"
 )
